@@ -96,7 +96,7 @@ def blockzero_safe(content, msgs, bsz, preamble=b""):
 def gen_sources(rng, n_sources, bsz, max_msgs=12, containers=("plain",), tie_heavy=True,
                 allow_degenerate=True, special=0.0, first_line_max=None, t0=None, letter_base=0,
                 crlf_p=0.0, blank_p=0.1, preamble_p=0.0, frac_choices=(3, 3, 6, 9, 1), safe_sizes=None,
-                notations=(1, 1, 1, 2, 3, 0)):
+                notations=(1, 1, 1, 2, 3, 0, 1, 1, 2, 3, 0, 6)):
     """Text sources with instants drawn from a small common pool (ties inside and across sources)."""
     t0 = t0 if t0 is not None else 946684800_000_000_000 + rng.randrange(0, 20 * 365) * 86400_000_000_000
     pool_n = rng.choice((2, 3, 5, 8, 30)) if tie_heavy else 10000
@@ -126,7 +126,7 @@ def gen_sources(rng, n_sources, bsz, max_msgs=12, containers=("plain",), tie_hea
         inst = sorted(rng.choice(pool) for _ in range(n))
         notation = rng.choice(notations)
         off = rng.choice(world.OFFSETS_HOUR if notation == 3 else world.OFFSETS_ALL)
-        if notation == 0:
+        if notation in (0, 6):
             off = 0  # zone-less stamps are written in UTC and the run passes --tz-offset +00:00
         prefix_len = rng.choice((0, 3, 12, 40, 150, 400)) if notation >= 4 else 0
         p = world.TextLogParams(notation=notation, off_min=off, vary_offset=rng.random() < 0.3,
@@ -174,7 +174,7 @@ def gen_sources(rng, n_sources, bsz, max_msgs=12, containers=("plain",), tie_hea
 
 # notations for checks that do not care where in the line the stamp sits: mostly column 0, one source in eight with the
 # stamp inside the line (world.line_head, notations 4 and 5: found by s4's wide patterns only)
-NOTATIONS_WIDE = (1, 1, 1, 1, 1, 1, 2, 2, 3, 3, 0, 0, 1, 1, 4, 5)
+NOTATIONS_WIDE = (1, 1, 1, 1, 1, 1, 2, 2, 3, 3, 0, 0, 1, 1, 4, 5, 6, 6, 7, 1)
 
 
 def draw_mtime(rng, msgs):
